@@ -314,6 +314,33 @@ def check_vm(crate, rep, cfg):
             ok = ok and not (reach & heads) and not any(vm.term(x)["k"] == "return" for x in reach)
     rep.add("C04.VM", "C04.VM:super:level-set-and-restored", ok, vm.where(inner[0]) if inner else vm.where(0), "super() records level + 1 for the nested run and writes the old level back "
             "before the error check, the next instruction or any return (nested super() calls and later siblings see the right level)" + ("" if ok else " — VIOLATED"))
+    # every super() call renders: the next instruction is reached from the start of the super() branch only through the nested interpret
+    # (or not at all: error returns) — no answer from a cache
+    heads = {bb for bb, t in find_calls(vm, ["parsing::instructions::Chunk::get"])}
+    ok = len(inner) == 1
+    if ok:
+        for t0 in sup_t:
+            if vm.reach_from(t0, removed_blocks=frozenset([inner[0]])) & heads:
+                ok = False
+        # and the value pushed is built from the buffer that nested run wrote
+        pushes = [(bb, t) for bb, t in vm.calls(sorted(sreg)) if callee_def(t).endswith("stack::Stack::push")]
+        out_l = {(l.kind, l.detail) for l in tr.operand(vm.term(inner[0])["args"][-1])}
+        for bb, t in pushes:
+            frontier = set(tr.operand(t["args"][1]))
+            for _ in range(4):
+                nxt = set()
+                for l in frontier:
+                    if l.kind == "call" and l.detail[0].rsplit("::", 1)[-1] in ("safe_string", "from_utf8", "from_utf8_lossy", "mark_safe"):
+                        nxt |= set(tr.operand(vm.term(l.detail[2])["args"][0]))
+                    else:
+                        nxt.add(l)
+                frontier = nxt
+            srcs = {(l.kind, l.detail) for l in frontier}
+            if not (srcs and srcs <= out_l):
+                ok = False
+    rep.add("C04.VM", "C04.VM:super:always-renders", ok, vm.where(inner[0]) if inner else vm.where(0), "each super() call interprets the ancestor's definition: the next instruction is "
+            "reachable from the super() branch only through the nested interpret, and the value pushed comes from the buffer that run wrote (no memoised answer — the ancestor may "
+            "read state that changed since the last call)" + ("" if ok else " — VIOLATED"))
     # root chunk: parents non-empty -> root's chunk, else own chunk; no new VM
     rt = crate.one("vm::interpreter::VirtualMachine::<'tera>::render_to")
     rtr = Tracer(rt)
